@@ -1,5 +1,6 @@
 (* Reads a harness trace on stdin; prints one line per disagreement and a summary. *)
 open Driver
+type string = Stdlib.String.t
 
 let () =
   let calls = ref 0 and mism = ref 0 and cases = ref 0 and errors = ref 0 in
